@@ -103,8 +103,28 @@ func extFmtErrorf(fr *frame, a []value) value {
 	return newOpaqueError("fmt.Errorf: " + a[0].(string))
 }
 
+// fmt.Sprintf: formatted for real when every argument is a concrete integer,
+// string or bool (so that e.g. generated names stay distinct); otherwise an
+// opaque string (formatting is outside every claim).
 func extFmtSprintf(fr *frame, a []value) value {
-	return "fmt.Sprintf: " + a[0].(string)
+	format := a[0].(string)
+	var args []interface{}
+	if len(a) > 1 {
+		if vs, ok := a[1].([]value); ok {
+			for _, v := range vs {
+				if ifc, ok := v.(iface); ok {
+					v = ifc.v
+				}
+				switch x := v.(type) {
+				case int, int8, int16, int32, int64, uint, uint8, uint16, uint32, uint64, uintptr, string, bool:
+					args = append(args, x)
+				default:
+					return "fmt.Sprintf: " + format
+				}
+			}
+		}
+	}
+	return fmt.Sprintf(format, args...)
 }
 
 // ---- bytes ----
